@@ -166,7 +166,18 @@ def FastEncoderWithIncompatibility(payload):
 
 
 def _permanent_nodes(g):
-    return _derived_only(g, g.get('start', []))
+    """Nodes that exist in every architecture: derived from the start nodes over derivation edges and over choices that
+    have a single option (those are resolved automatically)."""
+    S = _derived_only(g, g.get('start', []))
+    while True:
+        T = set(S)
+        for c in g.get('ch', []):
+            if c['origin'] in S and len(c['opts']) == 1:
+                T.add(c['opts'][0])
+        T = _derived_only(g, T)
+        if T == S:
+            return S
+        S = T
 
 
 @trigger
